@@ -121,6 +121,10 @@ def by_assignment(make, kw):
         decoy["center_freq"] = kw["center_freq"] + 5 * kw["sample_rate"].to(u.Hz if kw["center_freq"].unit == u.Hz else kw["center_freq"].unit)
     if "chan_bw" in kw:
         decoy["chan_bw"] = kw["chan_bw"] * 2
+    if "freq_align" in kw:
+        decoy["freq_align"] = "top" if kw["freq_align"] != "top" else "bottom"
+    if "pol_type" in kw:
+        decoy["pol_type"] = "circular" if kw["pol_type"] == "linear" else "linear"
     decoy["meta"] = {"decoy": True}
     z = make(**decoy)
     for at in ("dt", "time_length", "stop_time", "channel_freqs", "min_freq", "max_freq", "bandwidth", "nchan"):
@@ -139,6 +143,9 @@ def by_assignment(make, kw):
         # baseband classes tie chan_bw to the sample rate at construction; keep the two equal
         steps += [("chan_bw", kw["chan_bw"] if "chan_bw" in kw else kw["sample_rate"]),
                   ("center_freq", kw["center_freq"])]
+    for name in ("freq_align", "pol_type"):
+        if name in kw:
+            steps.append((name, kw[name]))
     k = _ASSIGN_COUNT % len(steps)
     for name, val in steps[k:] + steps[:k]:
         setattr(z, name, val)
